@@ -150,6 +150,43 @@ theorem C10_objective_iff (a : Answer) :
 theorem C10_no_objective_no_value (a : Answer) (h : a.nObj = 0) : (report a).objectiveShown = false := by
   unfold report; simp [h]
 
+/-! ## 5. Other observable uses of the classification (message variants, suffixes) -/
+
+/-- "feasrelax objective" / "Original objective" appear only together with the objective value, i.e. exactly for
+    candidate codes (single objective) -/
+theorem C10_feasrelax_shown_iff (a : Answer) :
+    ((extras a).feasrelaxShown = true ↔ (candidate a.code = true ∧ a.nObj = 1 ∧ a.feasrelax = true)) ∧
+    ((extras a).origObjShown = true ↔ (candidate a.code = true ∧ a.nObj = 1 ∧ a.origObj = true)) := by
+  unfold extras
+  simp only [Bool.and_eq_true, decide_eq_true_eq, C10_solvedOrFeasible_iff a.code, and_assoc, and_self]
+
+/-- suffix `.kappa` exactly for solved codes (when requested) -/
+theorem C10_kappa_suffix_iff (a : Answer) :
+    (extras a).kappaSuffix = true ↔ (documented a.code = .solved ∧ a.kappaOpt = true) := by
+  unfold extras
+  simp only [Bool.and_eq_true, C10_solved_iff a.code]
+
+/-- suffix `.unbdd` exactly for unbounded (300–399) and undecided (450–469) codes (when requested) -/
+theorem C10_unbdd_suffix_iff (a : Answer) :
+    (extras a).unbddSuffix = true ↔ (a.rayPrimalOpt = true ∧
+      (documented a.code = .unboundedFeas ∨ documented a.code = .unboundedNoFeas ∨ documented a.code = .limitInfUnb)) := by
+  unfold extras
+  simp only [Bool.and_eq_true, Bool.or_eq_true, C10_unbounded_iff a.code, C10_indiffInfOrUnb_iff a.code, or_assoc]
+
+/-- suffix `.dunbdd` exactly for infeasible (200–299) and undecided (450–469) codes (when requested) -/
+theorem C10_dunbdd_suffix_iff (a : Answer) :
+    (extras a).dunbddSuffix = true ↔ (a.rayDualOpt = true ∧
+      (documented a.code = .infeasible ∨ documented a.code = .limitInfUnb)) := by
+  unfold extras
+  simp only [Bool.and_eq_true, Bool.or_eq_true, C10_infeasible_iff a.code, C10_indiffInfOrUnb_iff a.code]
+
+/-- an IIS is computed and returned exactly for infeasible / unbounded / undecided codes (when requested) -/
+theorem C10_iis_suffix_iff (a : Answer) :
+    (extras a).iisSuffix = true ↔ ((documented a.code = .infeasible ∨ documented a.code = .unboundedFeas ∨
+      documented a.code = .unboundedNoFeas ∨ documented a.code = .limitInfUnb) ∧ a.iisOpt = true) := by
+  unfold extras
+  simp only [Bool.and_eq_true, Bool.or_eq_true, C10_infOrUnb_iff a.code, C10_indiffInfOrUnb_iff a.code, or_assoc, or_self]
+
 /-! ## non-vacuity (concrete instances; named so that a failure is attributed to them) -/
 theorem C10_witness_solved : isProblemSolved 0 = true ∧ isProblemSolved 99 = true ∧ isProblemSolved 100 = false := by decide
 theorem C10_witness_ranges : classify 402 = .limitFeas ∧ classify 1000 = .unclassified ∧ classify (-1) = .unclassified := by decide
